@@ -167,12 +167,12 @@ def run(ctx):
     ctx.rule = RULE
     rng = ctx.rng
     plan = []
-    counts = {'SO3': ctx.scale(70, 3000), 'SE3': ctx.scale(40, 2000), 'RxSO3': ctx.scale(30, 1500), 'Sim3': ctx.scale(24, 1500)}
+    counts = {'SO3': ctx.scale(300, 6000), 'SE3': ctx.scale(300, 6000), 'RxSO3': ctx.scale(200, 4000), 'Sim3': ctx.scale(400, 8000)}
     for g in GROUPS:
         k = 0
         for kind in ANG:
             k += 1
-            for dname in (('float64', 'float32') if ctx.thorough or g == 'SO3' else (('float64',) if k % 3 else ('float32',))):
+            for dname in ('float64', 'float32'):
                 plan.append((g, dname, kind))
         for _ in range(counts[g]):
             plan.append((g, 'float64' if rng.random() < 0.7 else 'float32', rng.choice(ANG)))
@@ -198,9 +198,9 @@ def run(ctx):
         br = '%s:%s:%s' % (g, dname, 'regime3' if vn <= eps else ('regime2' if abs(q[3]) <= eps else ('regime1-w<0' if q[3] < 0 else 'regime1')))
         ctx.case((g, dname, tuple(X)), nontrivial=(vn != 0), branch=br, sample=dict(g=g, dtype=dname, X=X, impl=out) if i % 157 == 5 else None)
         meta.append(dict(g=g, dtype=dname, X=X, impl=out, kind=kind))
-        epsl = '(1/4503599627370496)' if dname == 'float64' else '(1/8388608)'
-        cases.append(dict(idx=i, expr='log_l %s %d %s' % (epsl, GID[g], rlist(X)), comps=[(j, out[j], tol) for j, tol in tolerances(g, out, eps)]))
-    r = run_enclosure('C02', 'Model.LieGroup Model.LieExp Model.LieLog', cases, prec=220, per_file=ctx.scale(8, 30), timeout_goal=200)
+        epsl = 'E64' if dname == 'float64' else 'E32'
+        cases.append(dict(idx=i, expr='log_l (NF:=@NF@) (TF:=TransIv) %s %d %s' % (epsl, GID[g], ivlist(X)), comps=[(j, out[j], tol) for j, tol in tolerances(g, out, eps)]))
+    r = run_interval('C02', 'Model.LieGroup Model.LieExp Model.LieLog', cases)
     for name, out in r['broken']:
         ctx.obligation_broken('correspondence-file:' + name, out)
     ctx.notes.append('enclosure: %d proved within tolerance, %d proved outside, %d undecided' % (len(r['ok']), len(set(i for i, _ in r['bad'])), len(r['undecided'])))
